@@ -1108,3 +1108,130 @@ Proof.
     destruct Hu as [Hu|Hu]; [rewrite Hu in A|destruct (rp_registered s)]; lia.
   - destruct (I0 eq_refl) as [A [B C]]. assumption.
 Qed.
+
+(* ================================================================== *)
+(* the cache hands partition fields back unchanged; Client.Metadata's view *)
+
+Lemma find_metadata_topic_in : forall topics n t, find_metadata_topic topics n = Some t -> In t topics.
+Proof.
+  intros topics n t H. unfold find_metadata_topic in H.
+  set (i := sort_search (length topics) (fun i => negb (name_ltb (mt_name (nth i topics dummy_topic)) n))) in *.
+  destruct (Nat.ltb i (length topics)) eqn:E; cbn [andb] in H; [|discriminate].
+  destruct (name_eqb (mt_name (nth i topics dummy_topic)) n); [|discriminate].
+  inversion H. apply nth_In. apply Nat.ltb_lt. assumption.
+Qed.
+
+(* every topic entry the filter returns is an entry of the cache, untouched (so its partitions,
+   with leader, replicas, ISR, offline replicas and error codes), or the Unknown entry *)
+Lemma filter_preserves_partition_fields : forall names m t,
+  In t (md_topics (filter_metadata (Some names) m)) ->
+  In t (md_topics m) \/ exists n, In n names /\ t = unknown_topic n.
+Proof.
+  intros names m t H. cbn [filter_metadata md_topics] in H. apply in_map_iff in H.
+  destruct H as [n [E Hn]].
+  destruct (find_metadata_topic (md_topics m) n) as [t0|] eqn:F.
+  - left. subst t. eapply find_metadata_topic_in. eassumption.
+  - right. exists n. auto.
+Qed.
+
+Lemma normalize_topic_parts_perm_fields : forall t p,
+  In p (mt_parts (normalize_topic t)) -> In p (mt_parts t).
+Proof.
+  intros t p H. cbn [normalize_topic mt_parts] in H.
+  assert (G : forall (l acc : list md_part), In p (fold_left (fun a x => insert_by part_lt x a) l acc) -> In p l \/ In p acc).
+  { induction l as [|x l IH]; intros acc Hin; cbn [fold_left] in Hin; [right; assumption|].
+    destruct (IH _ Hin) as [H1|H1]; [left; right; assumption|].
+    assert (I : forall a, In p (insert_by part_lt x a) -> p = x \/ In p a).
+    { induction a as [|y a IHa]; cbn [insert_by]; intro Hi.
+      - destruct Hi as [<-|[]]. left. reflexivity.
+      - destruct (part_lt x y).
+        + destruct Hi as [<-|Hi]; [left; reflexivity | right; assumption].
+        + destruct Hi as [<-|Hi]; [right; left; reflexivity|].
+          destruct (IHa Hi) as [->|Hi']; [left; reflexivity | right; right; assumption]. }
+    destruct (I _ H1) as [->|H2]; [left; left; reflexivity | right; assumption]. }
+  destruct (G _ _ H) as [H1|[]]. assumption.
+Qed.
+
+Lemma client_metadata_fields : forall m,
+  cm_brokers (client_metadata m) = md_brokers m
+  /\ map ct_name (cm_topics (client_metadata m)) = map mt_name (md_topics m)
+  /\ forall t, In t (md_topics m) ->
+       In (client_topic (md_brokers m) t) (cm_topics (client_metadata m))
+       /\ ct_internal (client_topic (md_brokers m) t) = mt_internal t
+       /\ ct_err (client_topic (md_brokers m) t) = mt_err t
+       /\ map cp_id (ct_parts (client_topic (md_brokers m) t)) = map mp_idx (mt_parts t)
+       /\ forall p, In p (mt_parts t) ->
+            In (client_partition (md_brokers m) p) (ct_parts (client_topic (md_brokers m) t))
+            /\ cp_leader (client_partition (md_brokers m) p) = cm_lookup (md_brokers m) (mp_leader p)
+            /\ cp_replicas (client_partition (md_brokers m) p) = map (cm_lookup (md_brokers m)) (mp_replicas p)
+            /\ cp_isr (client_partition (md_brokers m) p) = map (cm_lookup (md_brokers m)) (mp_isr p)
+            /\ cp_err (client_partition (md_brokers m) p) = mp_err p.
+Proof.
+  intro m. split; [reflexivity|]. split.
+  - cbn [client_metadata cm_topics]. rewrite map_map. reflexivity.
+  - intros t Ht. split; [cbn [client_metadata cm_topics]; apply in_map; assumption|].
+    split; [reflexivity|]. split; [reflexivity|]. split.
+    + cbn [client_topic ct_parts]. rewrite map_map. reflexivity.
+    + intros p Hp. split; [cbn [client_topic ct_parts]; apply in_map; assumption|]. repeat split.
+Qed.
+
+(* a broker id that is listed once resolves to its entry *)
+Lemma cm_lookup_unique : forall bs b,
+  In b bs -> NoDup (map mb_id bs) -> cm_lookup bs (mb_id b) = b.
+Proof.
+  intros bs b Hin Hd. unfold cm_lookup.
+  assert (G : forall l acc, NoDup (map mb_id l) ->
+              (In b l -> fold_left (fun a x => if mb_id x =? mb_id b then x else a) l acc = b)
+              /\ (~ In (mb_id b) (map mb_id l) -> fold_left (fun a x => if mb_id x =? mb_id b then x else a) l acc = acc)).
+  { induction l as [|x l IH]; intros acc Hn; cbn [fold_left].
+    - split; [intros []|reflexivity].
+    - inversion Hn as [|? ? Hx Hl]. subst. split.
+      + intros [->|Hb].
+        * rewrite Z.eqb_refl. apply (proj2 (IH b Hl)). assumption.
+        * destruct (mb_id x =? mb_id b) eqn:E.
+          -- exfalso. apply Z.eqb_eq in E. apply Hx. rewrite E. apply in_map. assumption.
+          -- apply (proj1 (IH acc Hl)). assumption.
+      + intro Hni. destruct (mb_id x =? mb_id b) eqn:E.
+        * exfalso. apply Z.eqb_eq in E. apply Hni. left. assumption.
+        * apply (proj2 (IH acc Hl)). intro. apply Hni. right. assumption. }
+  apply (proj1 (G bs zero_md_broker Hd)). assumption.
+Qed.
+
+(* ================================================================== *)
+(* connection set-up requests use the negotiated versions like every other request *)
+
+Lemma connection_setup_sasl : forall neg,
+  connection_setup true neg =
+  [SReq K_ApiVersions 0; SReq K_SaslHandshake (conn_version neg K_SaslHandshake);
+   if conn_version neg K_SaslHandshake =? 0 then SRawToken
+   else SReq K_SaslAuthenticate (conn_version neg K_SaslAuthenticate)].
+Proof. reflexivity. Qed.
+
+Lemma connection_setup_versions : forall client adv1 adv2 bmin bmax,
+  (forall e, In e adv2 -> fst e <> K_SaslHandshake) ->
+  let neg := negotiate client (adv1 ++ (K_SaslHandshake, (bmin, bmax)) :: adv2) in
+  let hv := select_version (fst (lookup_range client K_SaslHandshake)) (snd (lookup_range client K_SaslHandshake)) bmin bmax in
+  connection_setup true neg =
+  [SReq K_ApiVersions 0; SReq K_SaslHandshake hv;
+   if hv =? 0 then SRawToken else SReq K_SaslAuthenticate (conn_version neg K_SaslAuthenticate)].
+Proof.
+  intros client adv1 adv2 bmin bmax H neg hv. rewrite connection_setup_sasl.
+  unfold neg. rewrite (negotiate_advertised client adv1 adv2 K_SaslHandshake bmin bmax H). reflexivity.
+Qed.
+
+(* ================================================================== *)
+(* update: delete, then add *)
+
+Lemma update_moved_broker : forall p m id b_new,
+  conns_ok p ->
+  mget Z.eqb (c_brokers (make_layout (normalize m))) id = Some b_new ->
+  mget Z.eqb (ps_conns (update p (Some m) None)) id = Some b_new.
+Proof.
+  intros p m id b_new H Hn. destruct (update_conns_ok p (Some m) None H) as [_ Hc].
+  rewrite Hc. destruct (update_success p m) as [_ [_ [L _]]]. rewrite L. assumption.
+Qed.
+
+Lemma update_order_matters : forall (conns : list (Z * broker)) id b,
+  mget Z.eqb (mset Z.eqb (mdel Z.eqb conns id) id b) id = Some b        (* delete, then add *)
+  /\ mget Z.eqb (mdel Z.eqb (mset Z.eqb conns id b) id) id = None.       (* add, then delete *)
+Proof. intros. split; [apply mget_mset_same | apply mget_mdel_same]. Qed.
